@@ -75,6 +75,22 @@ pub fn replay(prop: &str, file: &str) -> i32 {
         }
     };
     let case_v = v.get("case").cloned().unwrap_or(v.clone());
+    if prop == "C16" && case_v.get("routes").is_some() {
+        if let Ok(c) = serde_json::from_value::<crate::props_treasury::TCase>(case_v.clone()) {
+            let mut scratch = Agg::default();
+            return match crate::props_treasury::check_tcase(&c, &mut scratch) {
+                Err(m) if m.contains("PANIC") => {
+                    println!("{m}");
+                    println!("VIOLATION property={prop} replay={file}");
+                    1
+                }
+                _ => {
+                    println!("replay passed: no violation of {prop}");
+                    0
+                }
+            };
+        }
+    }
     if let (true, Ok(hc)) = (case_v.get("calls").is_some(), serde_json::from_value::<crate::props_extra::HostileCase>(case_v.clone())) {
         let mut scratch = Agg::default();
         return match crate::props_extra::check_hostile(&hc, &mut scratch) {
